@@ -30,7 +30,7 @@ DESIGN_REF = "§5 C09"
 def run(ctx, driver):
     rng = ctx.rng
     rec = propbase.Rec(ctx, ID)
-    n = 3000 if ctx.quick else 40000
+    n = 3000 if ctx.quick else 200000
     cases = [poolb1.gen_case(rng) for _ in range(n)]
     answers = driver.run([poolb1.model_line(c) for c in cases]) if driver else [None] * n
     for c, ans in zip(cases, answers):
@@ -172,7 +172,7 @@ def run_scenario(cfg, ops):
 
 def run_scenarios(ctx, rec):
     rng = ctx.rng
-    n = 250 if ctx.quick else 4000
+    n = 250 if ctx.quick else 20000
     for _ in range(n):
         cfg, ops = gen_scenario(rng)
         trace = run_scenario(cfg, ops)
